@@ -33,22 +33,12 @@ theorem sfitsAssign_sound (ρ : Env) (l r : Expr) (h : sfitsAssign l r = true) (
 
 theorem sfitsCond_sound (ρ : Env) (c : Expr) (h : sfitsCond c = true) (hρ : envOk ρ c = true) :
     fitsCond ρ c = true := by
-  simp only [sfitsCond, Bool.and_eq_true, Bool.or_eq_true, decide_eq_true_eq] at h
+  simp only [sfitsCond, Bool.and_eq_true] at h
   have hfit := staticallyFits_Fits c _ h.1 ρ hρ
-  simp only [fitsCond, Bool.and_eq_true, beq_iff_eq, decide_eq_decide]
+  simp only [fitsCond, Bool.and_eq_true]
   refine ⟨hfit, ?_⟩
-  rcases h.2 with heq | hb
-  · rw [heq]
-  · simp only [Fits, Bool.and_eq_true] at hfit
-    have hb' := bounds_sound ρ (printE c).1
-    rw [printE_ideal ρ c hfit.1] at hb'
-    have hr := inRange_of_bounds hb hb'.1 hb'.2
-    simp only [inRange, Bool.false_eq_true, if_false, Bool.and_eq_true, decide_eq_true_eq] at hr
-    have h1 : tn (selfWidth (printE c).1) (evalF ρ c) = evalF ρ c :=
-      tn_of_range hr.1 (Int.lt_of_lt_of_le hr.2 (p2_le (Nat.min_le_left _ _)))
-    have h2 : tn (bitsSign c).1 (evalF ρ c) = evalF ρ c :=
-      tn_of_range hr.1 (Int.lt_of_lt_of_le hr.2 (p2_le (Nat.min_le_right _ _)))
-    rw [h1, h2]
+  simp only [Fits, Bool.and_eq_true] at hfit
+  exact condOk_of_scondOk ρ c hfit.1 h.2
 
 theorem sfitsCase_sound (ρ : Env) (test : Expr) (items : Items) (h : sfitsCase test items = true)
     (hρ : envOk ρ test = true) : fitsCase ρ test items = true := by
